@@ -21,7 +21,8 @@ REQUIRED_THEOREMS = ['CfVerif.C11.' + t for t in (
     'load_never_wrong', 'fetch_after_insert_eq_store', 'downloaded_table_is_dict', 'json_proper_prefix_rejected',
     'truncation_is_miss', 'truncated_file_is_miss', 'missing_file_is_miss', 'unparsable_file_is_miss',
     'crash_then_restart_is_miss', 'miss_starts_download', 'miss_download_completes', 'hit_uses_cache', 'ro_never_written',
-    'init_never_writes_files', 'never_wrong_table', 'tracked_is_last_insert', 'collision_counterexample', 'gen_keys', 'gen_decoder', 'gen_encoder', 'gen_fetch_lookup',
+    'init_never_writes_files', 'never_wrong_table', 'tracked_is_last_insert', 'info_reply_decodes_to_announced_crc',
+    'fetcher_uses_announced_crc', 'other_crc_any_generation_downloads', 'gen_info_unpack', 'collision_counterexample', 'gen_keys', 'gen_decoder', 'gen_encoder', 'gen_fetch_lookup',
     'gen_fetch_load', 'gen_insert', 'gen_init', 'gen_fetcher', 'gen_crc_is_u32', 'gen_type_strings_valid')]
 TRUSTED = ['harness/corr/c11.py extractor + correspondence',
            "CPython json (C scanner/encoder) behaves as Model/C11 `loads`/`printToc` on the texts explored (validated on every run, not proved)",
@@ -889,7 +890,8 @@ def _run_fetcher_loop(sess, cls, ecls, crc, elems, desc, key, cf, f, holder, don
             outs.append('fin')
         real = 'ok ' + (','.join(outs) or '-')
         if req[0] in (1, 3):
-            sess.emit('finfo %d %d' % (len(elems), crc), real, desc, key)
+            # the model decodes the reply bytes itself (legacy '<BI' / V2 '<HI'): payload = data after the command byte
+            sess.emit('finfopkt %d %s' % (1 if cf.version >= 4 else 0, hexb(bytes(pk.data)[1:])), real, desc, key)
         else:
             nreq += 1
             idx = (req[1] | (req[2] << 8)) if req[0] == 2 else req[1]
@@ -903,6 +905,27 @@ def _run_fetcher_loop(sess, cls, ecls, crc, elems, desc, key, cf, f, holder, don
         real = 'raised ' + type(ex).__name__
     sess.emit('ftoc', real, None, None)
     return holder.toc, nreq, len(done)
+
+
+def crc_relatives(c):
+    """checksums that carry the same bytes / bits in another order (what a wrong byte order, field offset or width would read)"""
+    b = c.to_bytes(4, 'little')
+    outs = {int.from_bytes(b[::-1], 'little'),                       # byte swap
+            int.from_bytes(b[1:] + b[:1], 'little'), int.from_bytes(b[2:] + b[:2], 'little'), int.from_bytes(b[3:] + b[:3], 'little'),
+            int.from_bytes(bytes([b[1], b[0], b[3], b[2]]), 'little'),   # swap inside the halves
+            (c << 8) & 0xFFFFFFFF, c >> 8, (c << 16) & 0xFFFFFFFF, c >> 16, c & 0xFFFF, c & 0xFFFFFF}
+    outs.discard(c)
+    return sorted(outs)
+
+
+def gen_mixed_pair(rng):
+    """(crc A, crc B): B is a byte permutation / shift of A, A != B"""
+    while True:
+        a = rng.choice([1, 0x01000000, 0x00000100, 0x11223344, 0xDEADBEEF, 0x000000FF, rng.randrange(2 ** 32), rng.randrange(2 ** 32),
+                        rng.randrange(1, 256) << rng.choice([0, 8, 16, 24])])
+        rel = crc_relatives(a)
+        if rel:
+            return a, rng.choice(rel[:1] * 3 + rel)        # the byte swap most often
 
 
 def device_table(rng, cls, n):
@@ -1015,7 +1038,7 @@ def correspond(ctx):
         batches.append(('TocCache scenario vs model', sess.lines))
 
     # (4) TocFetcher cache paths with a fake Crazyflie
-    for sc in range(96 if thorough else 32):
+    for sc in range(108 if thorough else 36):
         sess = Session(ctx)
         try:
             fetcher_scenario(ctx, sess, rng, sc)
@@ -1162,8 +1185,26 @@ def fetcher_scenario(ctx, sess, rng, sc):
         n = min(n, 255)
     elems = device_table(rng, cls, n)
     crc = rng.randrange(2 ** 32)
-    kind = ['miss-then-hit', 'truncated', 'garbage', 'other-class', 'vanished', 'dir', 'dangling', 'noperm'][sc % 8]
-    in_ro = kind in ('vanished', 'dir', 'dangling', 'noperm') and (sc // 8) % 2 == 1
+    kind = ['miss-then-hit', 'truncated', 'garbage', 'other-class', 'vanished', 'dir', 'dangling', 'noperm', 'mixed-generation'][sc % 9]
+    in_ro = kind in ('vanished', 'dir', 'dangling', 'noperm') and (sc // 9) % 2 == 1
+    if kind == 'mixed-generation':
+        # a legacy-protocol and a V2 device of the same kind share one cache; their checksums are byte permutations of each
+        # other: each must end up with its own table, in whatever order they connect, and hit its own file afterwards
+        ctx.count('fetcher:' + kind)
+        ca, cb = gen_mixed_pair(rng)
+        va, vb = rng.choice([(3, 4), (4, 3), (1, 5), (3, 4), (4, 4), (3, 3)])
+        ea, eb = device_table(rng, cls, max(n, 1)), device_table(rng, cls, rng.choice([1, 2, 4]))
+        order = [(va, ca, ea), (vb, cb, eb), (va, ca, ea), (vb, cb, eb)]
+        if rng.random() < 0.5:
+            order = [order[1], order[0], order[3], order[2]]
+        for i, (v, c, e) in enumerate(order):
+            if i != 1 or rng.random() < 0.7:
+                sess.new(None, rw)          # a new process (sometimes the second device uses the live TocCache)
+            run_fetcher(sess, cls, v, c, e, {'op': 'fetcher-mixed-generation', 'step': i, 'v': v, 'crc': '%08X' % c}, ('fetcher-mixed', i, cls, v, c, sc))
+        sess.files()
+        for nme in sorted(os.listdir(rw)):
+            sess.cat(rw + '/' + nme)
+        return
     ctx.count('fetcher:' + kind)
     sess.new(None, rw)
     # first connection: nothing cached -> download -> insert
@@ -1352,6 +1393,45 @@ def unusable_hit_case(ctx, rng, root, kind, where, cls, version):
     # the read-only directory must look the same afterwards (entry kinds and names)
     if where == 'ro' and sorted(os.listdir(ro)) != [os.path.basename(path)] * (0 if kind == 'vanished' else 1):
         ctx.witness('ro-written', 'the read-only cache directory changed while handling an unusable entry', inp, now=sorted(os.listdir(ro)))
+
+
+def mixed_generation_case(ctx, rng, root, trial):
+    tc, L, P = _mods()
+    rw = '%s/mix%d' % (root, trial)
+    cls = 'LP'[trial % 2]
+    ca, cb = gen_mixed_pair(rng)
+    va, vb = [(3, 4), (4, 3), (1, 5), (4, 4), (3, 3), (3, 4)][trial % 6]
+    devs = {'A': (va, ca, device_table(rng, cls, rng.choice([1, 2, 3]))), 'B': (vb, cb, device_table(rng, cls, rng.choice([1, 2, 4])))}
+    seq = ['A', 'B', 'A', 'B'] if trial % 4 < 2 else ['B', 'A', 'B', 'A']
+    cache = None
+    seen = set()
+    for i, who in enumerate(seq):
+        v, c, elems = devs[who]
+        if cache is None or rng.random() < 0.6:
+            cache = tc.TocCache(rw_cache=rw)
+        inp = {'cls': cls, 'sequence': seq, 'step': i, 'devices': {k: {'version': d[0], 'crc': '%08X' % d[1], 'elems': [list(e) for e in d[2]]} for k, d in devs.items()}}
+        try:
+            toc, reqs, done = connect_via_fetcher(cache, cls, v, c, elems)
+        except Exception as e:
+            ctx.witness('connection-failed', 'TOC fetch raised %s with two protocol generations sharing the cache' % type(e).__name__, inp)
+            return
+        want = device_want(cls, elems)
+        if done != 1 or table_fields(toc) != want:
+            ctx.witness('mixed-generation-wrong-table', 'device %s (protocol %d, checksum %08X) got a table that is not its own after a device of '
+                        'protocol %d with checksum %08X used the same cache' % (who, v, c, devs['B' if who == 'A' else 'A'][0], devs['B' if who == 'A' else 'A'][1]),
+                        inp, got=str(table_fields(toc))[:300], want=str(want)[:300])
+            return
+        expect = 0 if who in seen else len(elems)
+        if reqs != expect:
+            ctx.witness('mixed-generation-requests', 'device %s (protocol %d, checksum %08X): %d element requests, expected %d (%s)'
+                        % (who, v, c, reqs, expect, 'warm' if who in seen else 'cold'), inp)
+            return
+        if not os.path.isfile('%s/%08X.json' % (rw, c)):
+            ctx.witness('stored-under-other-checksum', 'after the download for announced checksum %08X (protocol %d) there is no %08X.json; directory: %s'
+                        % (c, v, c, sorted(os.listdir(rw))), inp)
+            return
+        seen.add(who)
+    ctx.count('search:mixed-generation')
 
 
 def search(ctx):
@@ -1552,6 +1632,11 @@ def search(ctx):
                 for cls in 'LP':
                     for version in (4, 3):
                         unusable_hit_case(ctx, rng, root, kind, where, cls, version)
+        # (g3) mixed protocol generations on one cache, checksums that are byte permutations / shifts of each other: every
+        #      device ends up with ITS table (cold: downloaded; warm: from the cache without requests), the file is named after
+        #      the announced checksum, in both connection orders, same TocCache object or a new one
+        for trial in range(48 if thorough else 16):
+            mixed_generation_case(ctx, rng, root, trial)
         # (g2) histories (twin of never_wrong_table): completed inserts, inserts cut at any byte, restarts; afterwards every
         #      checksum yields None or the table LAST written under it - and None when that last write was cut
         for trial in range(60 if thorough else 15):
